@@ -433,6 +433,138 @@ func runC15(c *Ctx) {
 	} else {
 		c14EveryValuedVariableWritten(c, r8, vv)
 	}
+	// ---- R9 what resolution reads from the document does not depend on which operation validation walked last
+	r9 := c.Rule("R9", "argument resolution reads no link that validation sets relative to the operation being walked", 1)
+	c15OperationRelativeLinks(c, r9)
+}
+
+// c15OperationRelativeLinks: the walker visits the body of a fragment once for every operation that spreads it and
+// overwrites the links it finds there. A link whose value is computed from Walker.CurrentOperation therefore holds,
+// after validation, whatever the operation walked LAST made of it. Rules that run during the walk may read it; code that
+// runs afterwards for one chosen operation (ArgumentMap, Value.Value) must not: with two operations sharing a fragment
+// it would see the other operation's variable definition and default.
+func c15OperationRelativeLinks(c *Ctx, r *RuleResult) {
+	p := c.P
+	walkerT := p.LookupType("validator", "Walker")
+	if walkerT == nil {
+		r.AnchorLost("validator.Walker")
+		return
+	}
+	var fromOp func(v ssa.Value, depth int) bool
+	fromOp = func(v ssa.Value, depth int) bool {
+		if depth <= 0 || v == nil {
+			return false
+		}
+		v = stripChange(v)
+		if loadOfField(v, "Walker", "CurrentOperation") {
+			return true
+		}
+		switch x := v.(type) {
+		case *ssa.UnOp:
+			return fromOp(x.X, depth-1)
+		case *ssa.FieldAddr:
+			return fromOp(x.X, depth-1)
+		case *ssa.Field:
+			return fromOp(x.X, depth-1)
+		case *ssa.IndexAddr:
+			return fromOp(x.X, depth-1)
+		case *ssa.Index:
+			return fromOp(x.X, depth-1)
+		case *ssa.Lookup:
+			return fromOp(x.X, depth-1)
+		case *ssa.Extract:
+			return fromOp(x.Tuple, depth-1)
+		case *ssa.Slice:
+			return fromOp(x.X, depth-1)
+		case *ssa.Phi:
+			for _, e := range x.Edges {
+				if e != ssa.Value(x) && fromOp(e, depth-1) {
+					return true
+				}
+			}
+		case *ssa.Alloc:
+			for _, sv := range storesTo(x) {
+				if fromOp(sv, depth-1) {
+					return true
+				}
+			}
+		case *ssa.Call:
+			// a lookup on a list of the operation (ForName) yields a part of the operation
+			for _, a := range x.Call.Args {
+				if isRefType(a.Type()) && fromOp(a, depth-1) {
+					return true
+				}
+			}
+		}
+		return false
+	}
+	relative := map[annot]token.Pos{}
+	for _, fn := range p.FuncsIn("validator") {
+		allInstrs(fn, func(in ssa.Instruction) {
+			st, ok := in.(*ssa.Store)
+			if !ok {
+				return
+			}
+			fa, ok := st.Addr.(*ssa.FieldAddr)
+			if !ok {
+				return
+			}
+			n, f, _, _ := fieldOf(fa)
+			if n == nil || n.Obj().Pkg() == nil || !strings.HasSuffix(n.Obj().Pkg().Path(), "/ast") {
+				return
+			}
+			if !isRefType(st.Val.Type()) {
+				return
+			}
+			if fromOp(st.Val, 8) {
+				relative[annot{n.Obj().Name(), f}] = st.Pos()
+			}
+		})
+	}
+	var roots []*ssa.Function
+	for _, n := range []string{"ast.(*Field).ArgumentMap", "ast.(*Directive).ArgumentMap", "ast.arg2map", "ast.(*Value).Value"} {
+		if f := p.Func(n); f != nil {
+			roots = append(roots, f)
+		}
+	}
+	if len(roots) == 0 {
+		r.AnchorLost("ast.arg2map / ast.(*Value).Value")
+		return
+	}
+	var fns []*ssa.Function
+	for fn := range p.reachableFrom(roots, nil) {
+		if p.inModule(fn) {
+			fns = append(fns, fn)
+		}
+	}
+	sort.Slice(fns, func(i, j int) bool { return p.FuncName(fns[i]) < p.FuncName(fns[j]) })
+	n := 0
+	for _, fn := range fns {
+		allInstrs(fn, func(in ssa.Instruction) {
+			v, ok := in.(ssa.Value)
+			if !ok {
+				return
+			}
+			stName, f, ok := fieldLoadOf(v)
+			if !ok {
+				return
+			}
+			pos, rel := relative[annot{stName, f}]
+			if !rel {
+				return
+			}
+			n++
+			r.Fail(in.Pos(), p.FuncName(fn), "reads "+stName+"."+f+", which the walker sets from the operation being walked", fmt.Sprintf("%s.%s is stored by the walker from Walker.CurrentOperation (%s); inside a fragment spread by several operations it keeps the value of the operation walked last, so resolving arguments for another operation uses that operation's variable definition — its default value replaces the absent variable of the operation actually executed", stName, f, p.Pos(pos)))
+		})
+	}
+	var rl []string
+	for a := range relative {
+		rl = append(rl, a.st+"."+a.fld)
+	}
+	sort.Strings(rl)
+	if n == 0 {
+		r.OK(fmt.Sprintf("argument resolution (%d functions) reads none of the operation-relative links %v", len(fns), rl), "")
+	}
 }
 
 func isBoolPhi(ph *ssa.Phi) bool {
